@@ -168,16 +168,20 @@ def build(pl, r):
                     cnt['fail'] -= 1
                 exp.append(('tag', s['tag']))         # (re-)executed from its start after the fix
     fixes = ': '.join(sorted({KINDS[k]['fix'] for k in KINDS}))
-    lines = ['DIM zarr(3)', 'zone% = 1'] + inits
+    # the handler is module-level code: it sees the main program's variables (zmainv&, zhits%) also when the error happened
+    # inside a procedure, and the causes it repairs are SHARED there
+    lines = (['DIM SHARED zd%, zdf, zo%, zi%, zes$'] if place in ('sub', 'function') else []) + ['DIM zarr(3)', 'zone% = 1']
+    lines += ['zmainv& = 41777', ': '.join(f'zfill{i} = {i}' for i in range(1, 13))] + inits
     handler = []
+    hhead = ['zh: zhits% = zhits% + 1', 'PRINT 42001&; ERR; zmainv&; zhits%']
     if pl['mode'] in ('goto-resume', 'goto-resume-next', 'goto-then-goto0', 'goto-end'):
         lines.append('ON ERROR GOTO zh')
         if pl['mode'] == 'goto-resume':
-            handler = ['zh: PRINT 42001&; ERR', fixes, 'RESUME']
+            handler = hhead + [fixes, 'RESUME']
         elif pl['mode'] == 'goto-end':
-            handler = ['zh: PRINT 42001&; ERR', 'END']
+            handler = hhead + ['END']
         else:
-            handler = ['zh: PRINT 42001&; ERR', 'RESUME NEXT']
+            handler = hhead + ['RESUME NEXT']
     else:
         lines.append('ON ERROR RESUME NEXT')
     procs = ['SUB zshow (t&)', 'PRINT t&', 'END SUB', 'SUB zshow2 (t&, v)', 'PRINT t&; v', 'END SUB',
@@ -191,11 +195,11 @@ def build(pl, r):
             exp.append(('tag', 43001))
     elif place == 'sub':
         lines += ['zouter', 'PRINT 43001&', 'END'] + gs + handler
-        procs += ['SUB zouter', 'DIM zarr(3)', 'zone% = 1'] + inits + [b for b in body if 'GOSUB' not in b] + ['END SUB']
+        procs += ['SUB zouter', 'DIM zarr(3)', 'zone% = 1'] + [b for b in body if 'GOSUB' not in b] + ['END SUB']
         exp = [e for e, s_ in zip(exp, exp)]
     else:
         lines += ['zr = zouterf(1)', 'PRINT 43001&', 'END'] + gs + handler
-        procs += ['FUNCTION zouterf (q)', 'DIM zarr(3)', 'zone% = 1'] + inits + [b for b in body if 'GOSUB' not in b] + ['zouterf = 1', 'END FUNCTION']
+        procs += ['FUNCTION zouterf (q)', 'DIM zarr(3)', 'zone% = 1'] + [b for b in body if 'GOSUB' not in b] + ['zouterf = 1', 'END FUNCTION']
     text = '\n'.join(lines + procs) + '\n'
     return text, exp, outcome, cnt
 
@@ -246,6 +250,7 @@ def run_case(case):
         ctx = f"{cn} [{pl['place']}/{pl['mode']}]"
         # observed trace
         got = []
+        frame_reported = False
         for e in run.history:
             if e[0] != 'print' or not e[1]:
                 continue
@@ -256,6 +261,14 @@ def run_case(case):
             if t == 42001:
                 errv = e[1][2][2] if len(e[1]) > 2 and isinstance(e[1][2], list) else None
                 got.append(('handler', errv))
+                nh = sum(1 for g_ in got if g_[0] == 'handler')
+                seen = [x[2] for x in e[1][4:7:2] if isinstance(x, list)]
+                st['handler_frame_checks'] = st.get('handler_frame_checks', 0) + 1
+                if seen != [41777, nh] and not frame_reported:
+                    frame_reported = True
+                    viol.append(V(f"C10:handler-does-not-see-module-variables:{pl['place']}", f"{cn} [{pl['place']}/{pl['mode']}]: "
+                                  f'entry {nh} of the module-level handler printed zmainv&, zhits% = {seen}, the main program holds '
+                                  f'[41777, {nh}]', text=text))
             else:
                 got.append(('tag', t))
         # compare shape of traces
